@@ -98,7 +98,7 @@ def run_case(case):
                 evals += 1
                 probes["scripted"] += 1
                 if r is not None and not vs:
-                    un_ref, un_lanes = gfi.match_sites(r.sites, script.lanes)
+                    un_ref, un_lanes = gfi.match_sites(r.sites, script.lanes, script=script)
                     if un_ref:
                         viol.append(V("routing", "site_params_and_value",
                                       "a choice in the trace was not produced by a site consulted with the reference's "
@@ -108,7 +108,7 @@ def run_case(case):
                                       f"{len(un_lanes)} consulted lanes do not appear in the trace, expected "
                                       f"{r.hidden_lanes} (hidden Cond branch)", op="simulate"))
                     # outcome by outcome: the density of the consulted draws is the reported score
-                    lp = sum(ref.logpdf(ln["d"], ln["value"], *ln["params"]) for ln in script.lanes)
+                    lp = sum(ref.logpdf(ln["d"], ln["value"], *ln["params"]) for ln in getattr(script, "aligned", script.lanes))
                     lp_dead = sum(ref.logpdf(ln["d"], ln["value"], *ln["params"]) for ln in un_lanes)
                     lp_dead += sum(s["logp"] for s in r.sites if not s["live"])
                     if not un_ref and len(un_lanes) == r.hidden_lanes and \
